@@ -409,15 +409,36 @@ class SymChoice:
         idx = [i for i, a in enumerate(self.values) if _same(a, o)]
         if not idx:
             return z3.BoolVal(False)
-        return z3.Or([self.e == i for i in idx])
+        if len(idx) == 1:
+            return eq_const(self.e, idx[0])
+        return z3.Or([eq_const(self.e, i) for i in idx])
+
+    def _single(self, o):
+        """index of the only value equal to the concrete object o, or None"""
+        if is_sym(o):
+            return None
+        idx = [i for i, a in enumerate(self.values) if _same(a, o)]
+        return idx[0] if len(idx) == 1 else None
 
     def __eq__(self, o):
+        pv = _pin(self.e)
+        if pv is not None and not is_sym(o):
+            return _same(self.values[pv], o)
+        k = self._single(o)
+        if k is not None:
+            return SymBool(eq_const(self.e, k), (self.e, k, True))
         t = self._eq_term(o)
         if t is None:
             return self.conc() == o
         return SymBool(t)
 
     def __ne__(self, o):
+        pv = _pin(self.e)
+        if pv is not None and not is_sym(o):
+            return not _same(self.values[pv], o)
+        k = self._single(o)
+        if k is not None:
+            return SymBool(z3.Not(eq_const(self.e, k)), (self.e, k, False))
         t = self._eq_term(o)
         if t is None:
             return self.conc() != o
@@ -480,6 +501,23 @@ class SymChoice:
 
     def __radd__(self, o):
         return o + self.conc()
+
+    def __sub__(self, o):
+        return self.conc() - o
+
+    def __rsub__(self, o):
+        return o - self.conc()
+
+    def __mul__(self, o):
+        return self.conc() * o
+
+    __rmul__ = __mul__
+
+    def __float__(self):
+        return float(self.conc())
+
+    def __int__(self):
+        return int(self.conc())
 
 
 def _same(a, b):
@@ -552,6 +590,17 @@ class SymSet:
     def copy(self):
         return SymSet(self.mem)
 
+    def discard(self, k):
+        self.mem.pop(k, None)
+
+    def remove(self, k):
+        if k not in self:
+            raise KeyError(k)
+        self.mem.pop(k, None)
+
+    def add(self, k):
+        self.mem[k] = z3.BoolVal(True)
+
     def __repr__(self):
         return f'SymSet({list(self.mem)})'
 
@@ -579,3 +628,30 @@ def sym_ite(c, a, b):
             nb = nb if _is_real(nb) else z3.ToReal(nb)
         return _wrap_num(z3.If(ce, na, nb))
     return a if c else b
+
+
+def ssize(s):
+    """size of a set or SymSet without forking"""
+    return s.size() if isinstance(s, SymSet) else len(s)
+
+
+def scontains(s, k):
+    """membership in a set or SymSet without forking"""
+    return s.contains(k) if isinstance(s, SymSet) else (k in s)
+
+
+def snot(b):
+    """logical negation of a bool or SymBool without forking"""
+    return ~b if isinstance(b, SymBool) else (not b)
+
+
+def sor(a, b):
+    if isinstance(a, SymBool) or isinstance(b, SymBool):
+        return a | b
+    return bool(a) or bool(b)
+
+
+def sand(a, b):
+    if isinstance(a, SymBool) or isinstance(b, SymBool):
+        return a & b
+    return bool(a) and bool(b)
